@@ -76,7 +76,7 @@ func evalC04Cells(c *Ctx, gc GCase) string {
 		return ""
 	}
 	if err != nil {
-		return fmt.Sprintf("yaccgo's grammar tables are malformed: %v\n%s", err, gc.Text)
+		return adaptProblem(c, err, gc.Text)
 	}
 	l := b.A.L
 	g := b.A.G
